@@ -4,7 +4,7 @@ PROPS[pid]["rules"] = [(rule id, floor of decided instances, selector over insta
 Floors are the numbers counted on the tree the rules were written against: a rule that suddenly
 matches fewer sites is a broken check (exit 2), never a silent pass.
 """
-from . import wf, dp, dt, he, gl, ts, ee, sl, wp, fs, ic, nb, im, rn, mp, sp, ms, cp
+from . import wf, dp, dt, he, gl, ts, ee, sl, wp, fs, ic, nb, im, rn, mp, sp, ms, cp, sh, st
 
 
 def has(*subs):
@@ -34,6 +34,8 @@ RULES = {
     "SP": {"run": sp.run},
     "MS": {"run": ms.run},
     "CP": {"run": cp.run},
+    "SH": {"run": sh.run},
+    "ST": {"run": st.run},
 }
 
 BDD_T = ("BddNode", "BddPtr")
@@ -45,8 +47,12 @@ PROPS = {
         "rules": [("CP", 19, has("builder::bdd::", "repr::bdd::BddPtr", "cache::all_app", "cache::lru_app")),
                   ("IM", 14, has("IM2", "IM3")), ("HE", 2, has("BddNode:scratch", "BddNode:fields")),
                   ("DT", 7, has("BddPtr", "BottomUpBuilder::or:", "BottomUpBuilder::compose:")),
-                  ("FS", 2, has("or_lst", "and_lst"))],
-        "explanation": "Four structural clauses of BDD operation correctness. (a) complement-edge coherence: parity "
+                  ("FS", 2, has("or_lst", "and_lst")), ("ST", 2, None),
+                  ("SH", 5, has("RobddBuilder", "BottomUpBuilder<repr::bdd::BddPtr> for T>::var"))],
+        "explanation": "Six structural clauses of BDD operation correctness. (e) the standard-triple normalisation Ite::new "
+                       "preserves ite(f,g,h) on every path for every truth assignment (ST: exhaustive abstract interpretation over "
+                       "the 8-value pointer domain); (f) the Shannon node is node(top, ite of false-cofactors, ite of "
+                       "true-cofactors), conditioning selects high for true, literals are node(l,F,T) (SH). (a) complement-edge coherence: parity "
                        "abstraction (CP) of condition_essential, cond_with_alloc incl. its per-call memo, smooth_helper, the "
                        "BddPtr accessors/neg/is_neg against their contracts, and the two ITE-cache adapters; (b) history "
                        "immunity: no &mut / store / transmute reaches an interned node, unsafe = RefCell::as_ptr only, arena "
@@ -58,18 +64,21 @@ PROPS = {
     "C03": {
         "level": "other",
         "rules": [("CP", 32, has("builder::sdd::", "repr::sdd::SddPtr")), ("DT", 7, has("SddPtr", "BottomUpBuilder::or:", "BottomUpBuilder::compose:")),
-                  ("IM", 14, has("IM2", "IM3")), ("HE", 4, has("BinarySDD:scratch", "SddOr:scratch", "BinarySDD:fields", "SddOr:fields"))],
+                  ("IM", 14, has("IM2", "IM3")), ("HE", 4, has("BinarySDD:scratch", "SddOr:scratch", "BinarySDD:fields", "SddOr:fields")),
+                  ("ST", 2, None), ("SH", 1, has("SddPtr> for T>::condition"))],
         "explanation": "Complement coherence of every place the SDD code touches subs/children of a possibly complemented node "
                        "(and_sub_desc, and_prime_desc, and_cartesian, condition, SddPtr::{low,high,neg,is_neg}): operands of "
                        "and/ite/..., elements of result nodes and traversal recursion denote the same thing for a regular and "
                        "a complemented pointer; primes are never sign-dependent (CP). Derived operators ite/iff/xor/exists/"
-                       "negate/or/compose match their truth tables (DT). History immunity (IM, HE). Not decided: the vtree "
+                       "negate/or/compose match their truth tables (DT); the standard-triple normalisation used by the SDD ite preserves "
+                       "ite(f,g,h) (ST); a literal conditioned on its own variable is True iff polarity == value (SH). History immunity (IM, HE). Not decided: the vtree "
                        "case analysis of and, cartesian-product shortcuts, conditioning's element recursion.",
     },
     "C06": {
         "level": "other",
         "rules": [("CP", 4, has("decision_nnf::")), ("TS", 7, has("TS-BAL")), ("DP", 3, has("topdown")),
-                  ("GL", 1, has("component-cache")), ("SP", 10, has("SP1"))],
+                  ("GL", 1, has("component-cache")), ("SP", 10, has("SP1")),
+                  ("SH", 6, has("decision_nnf::"))],
         "explanation": "Conditioning of a possibly complemented d-DNNF pointer is sign-coherent (CP on cond_helper: return "
                        "contract, node-constructor parity, comparison parity); decide/pop balance on every path of topdown_h "
                        "(TS-BAL: one pop after SAT/Unknown, none after UNSAT, none before the first decide); UNSAT and an "
@@ -81,7 +90,8 @@ PROPS = {
     "C07": {
         "level": "other",
         "rules": [("DP", 8, has("unsmoothed_wmc", "evaluate")), ("CP", 10, has("fold", "bdd_fold_h", "BddPtr::low", "BddPtr::high")),
-                  ("MS", 13, None), ("FS", 7, has("fold", "wmc", "assignment_weight", "bb_ub", "marginal_map"))],
+                  ("MS", 13, None), ("FS", 7, has("fold", "wmc", "assignment_weight", "bb_ub", "marginal_map")),
+                  ("SH", 3, has("SH5"))],
         "explanation": "The generic count is the homomorphism Or->+, And->*, True->1, False->0, Lit->weight by polarity, and "
                        "evaluate encodes an assignment as (low=!b, high=b) (DP); the folds hand effective children to the "
                        "callback/recursion (CP on BddPtr::fold, bdd_fold_h, SddPtr::fold); the dual-polarity memo is written and "
@@ -144,7 +154,8 @@ PROPS = {
     "C05": {
         "level": "other",
         "rules": [("DP", 21, has("compile_logical_expr", "compile_plan", "BottomUpPlan::")),
-                  ("FS", 10, has("compile_cnf", "or_lst", "and_lst", "from_dtree")), ("DT", 1, has("BottomUpBuilder::or:"))],
+                  ("FS", 10, has("compile_cnf", "or_lst", "and_lst", "from_dtree")), ("DT", 1, has("BottomUpBuilder::or:")),
+                  ("SH", 5, has(":CC:"))],
         "explanation": "Every variant of LogicalExpr and BottomUpPlan is compiled by its namesake operation with operands in "
                        "order, a dtree becomes a conjunction of clause disjunctions of the literal's own label and polarity "
                        "with the empty clause false (DP; none of these arms is executed by the test-suite); empty-formula / "
@@ -190,7 +201,7 @@ PROPS = {
     },
     "C16": {
         "level": "proof",
-        "rules": [("GL", 8, hasnot("GL3", "component-cache")), ("CP", 2, has("IteTable:compl-flag"))],
+        "rules": [("GL", 8, hasnot("GL3", "component-cache")), ("CP", 2, has("IteTable:compl-flag")), ("ST", 2, None)],
         "explanation": "Complete structural argument for the first sentence: Lru::get returns Some(e.val) only under the "
                        "true edge of e.key == key (GL1); insert writes one Element{key,val,hash} of its own arguments into "
                        "the slot that get reads, grow re-inserts whole triples (GL2); the adapter's hash is a function of "
